@@ -792,7 +792,7 @@ pub fn make(prop: &str) -> Option<SCheck> {
             twin: true,
             quick: 1_500_000,
             thorough: 30_000_000,
-            rule: "engine S histories mixing all five update kinds on present/absent ids, equal/other prices, all types, orders whose own price field differs from the level's, after fills and replenishments; before/after relations on listing and return value; twin run (same history with read-only calls removed) must give identical responses and final state; non-trivial = a successful cancel/move/amend in a history that also had a partial fill or replenishment",
+            rule: "engine S histories mixing all five update kinds on present/absent ids, equal/other prices, all types, orders whose own price field differs from the level's, after fills and replenishments; before/after relations on listing and return value; twin run (same history with read-only calls removed) must give identical responses and final state; blind twin (the same mutating calls with no read-only call and no monitor observation in between, up to the first rebuild) must give identical responses and final state; non-trivial = a successful cancel/move/amend in a history that also had a partial fill or replenishment",
         },
         "C10" => SCheck {
             prop: "C10",
